@@ -910,12 +910,7 @@ def _mask(sig, num_args, hide_args, hide_kwargs,
     pokargs_by_name = dict((p.name, p) for p in pokargs)
     consumed_names = set()
 
-    if hide_args:
-        consumed_names.update(p.name for p in posargs)
-        consumed_names.update(p.name for p in pokargs)
-        posargs = []
-        pokargs = []
-    elif num_args:
+    if num_args:
         consume = num_args
         for param in _pop_chain(posargs, pokargs):
             consume -= 1
@@ -927,6 +922,11 @@ def _mask(sig, num_args, hide_args, hide_kwargs,
                 raise ValueError(
                     'Signature cannot be passed {0} arguments: {1}'
                     .format(num_args, sig))
+    if hide_args:
+        consumed_names.update(p.name for p in posargs)
+        consumed_names.update(p.name for p in pokargs)
+        posargs = []
+        pokargs = []
 
     _remove_from_src(src, consumed_names)
 
@@ -936,13 +936,6 @@ def _mask(sig, num_args, hide_args, hide_kwargs,
         varargs = None
 
     partial_mode = partial_obj is not None
-
-    if hide_kwargs:
-        _remove_from_src(src, _pnames(pokargs))
-        _remove_from_src(src, kwoargs)
-        pokargs = []
-        kwoargs = {}
-        named_args = []
 
     for kwarg_name in named_args:
         if kwarg_name in consumed_names:
@@ -983,6 +976,12 @@ def _mask(sig, num_args, hide_args, hide_kwargs,
                 default=named_args[kwarg_name])
             src[kwarg_name] = [partial_obj]
         consumed_names.add(kwarg_name)
+
+    if hide_kwargs:
+        _remove_from_src(src, _pnames(pokargs))
+        _remove_from_src(src, kwoargs)
+        pokargs = []
+        kwoargs = {}
 
     if hide_kwargs or hide_varkwargs:
         if varkwargs:
